@@ -124,7 +124,14 @@ def play(ctx, plan, base_dir, work, hist, ref_values, tag):
     try:
         for step_no, (cmd, crash) in enumerate(hist):
             before, _ = plan.abstract(root)
-            src = f"vcf2zarr.explode_partition({root!r}, {cmd[1]})" if cmd[0] == 1 else f"vcf2zarr.explode_finalise({root!r})"
+            if cmd[0] == 0:
+                # init issued again on the existing path (out of protocol order): same arguments, another file, another plan
+                vin = os.path.join(d, "in2.vcf.gz" if cmd[1] == 1 else "in.vcf.gz")
+                src = f"vcf2zarr.explode_init({root!r}, [{vin!r}], target_num_partitions={2 if cmd[1] == 2 else 3}, worker_processes=0)"
+            elif cmd[0] == 1:
+                src = f"vcf2zarr.explode_partition({root!r}, {cmd[1]})"
+            else:
+                src = f"vcf2zarr.explode_finalise({root!r})"
             rc, err = run_cmd(src, crash=crash, root=root)
             after, stray = plan.abstract(root)
             doc = dict(history=[[c, k] for c, k in hist], step=step_no)
@@ -132,7 +139,9 @@ def play(ctx, plan, base_dir, work, hist, ref_values, tag):
             if crash is not None and not killed and rc == 0:
                 pass  # the command had fewer mutations than the crash index: it completed
             if not killed:
-                pred, refused, inv = model_step(ctx, plan, before, cmd)
+                pred, refused, inv = model_step(ctx, plan, before, cmd if cmd[0] != 0 else (0,))
+                if cmd[0] == 0 and rc == 0:
+                    problems.append(("fail", doc, "init on an existing intermediate store was accepted (a command out of protocol order must fail and leave the data intact)"))
                 if refused != (rc != 0):
                     problems.append(("disagree", doc, f"command {cmd}: real {'failed' if rc else 'succeeded'}, model {'refuses' if refused else 'runs'}: {err[-120:]}"))
                 elif pred != after:
@@ -195,6 +204,8 @@ def run(ctx):
     base = os.path.join(ctx.work, "c05base")
     os.makedirs(base)
     src = make_input(base, r)
+    for ext in ("", ".tbi"):
+        shutil.copy(src + ext, os.path.join(base, "in2.vcf.gz" + ext))  # the same records under another name (for a second init)
     root = os.path.join(base, "s.icf")
     rc, err = run_cmd(f"vcf2zarr.explode_init({root!r}, [{src!r}], target_num_partitions=3, worker_processes=0)")
     assert rc == 0, err
@@ -251,12 +262,21 @@ def run(ctx):
         kills = 0
         for _ in range(r.randint(1, 8)):
             c = (2,) if r.random() < 0.25 else (1, r.randrange(nparts + (1 if r.random() < 0.05 else 0)))
+            if r.random() < 0.07:
+                c = (0, r.randrange(3))
             k = None
-            if kills < 2 and r.random() < 0.3:
+            if c[0] != 0 and kills < 2 and r.random() < 0.3:
                 kills += 1
                 k = crash(r.randrange(max(n_fresh, n_fin)), r.choice(tears))
             h.append((c, k))
         hists.append(h)
+    # (c) init issued again at every stage of the protocol
+    for v in range(3):
+        hists.append([((0, v), None)] + allp + [((2,), None)])
+        hists.append([((1, 0), None), ((0, v), None), ((1, 1), None), ((1, 2), None), ((2,), None)])
+        hists.append([((1, 1), crash(r.randrange(max(1, n_fresh)), r.choice(tears))), ((0, v), None)])
+    hists.append(allp + [((0, 1), None), ((2,), None)])
+    hists.append(allp + [((2,), None), ((0, 1), None)])
     # corpus: the F6 history
     hists.insert(0, allp + [((2,), crash(1, None)), ((1, 1), crash(3, "0")), ((2,), None)])
 
